@@ -38,6 +38,7 @@ pub struct SrvCfg {
     pub fsync: &'static str,
     pub rate_limit: bool,
     pub max_qps_global: usize,
+    pub max_elements: usize,
     pub extra: String,
 }
 
@@ -55,6 +56,7 @@ impl SrvCfg {
             fsync: "none",
             rate_limit: false,
             max_qps_global: 100_000,
+            max_elements: 20_000,
             extra: String::new(),
         }
     }
@@ -115,7 +117,7 @@ wal_flush_interval_ms = 50
 [hnsw]
 dimension = {dim}
 distance = "{metric}"
-max_elements = 20000
+max_elements = {maxel}
 [cache]
 capacity = {cap}
 strategy = "lru"
@@ -151,6 +153,7 @@ level = "error"
             keys = if c.auth { format!("api_keys_file = \"{}\"", keys.display()) } else { String::new() },
             rl = c.rate_limit,
             gq = c.max_qps_global,
+            maxel = c.max_elements,
             extra = c.extra,
         );
         let path = self.root.join("server.toml");
